@@ -14,6 +14,7 @@ Definition eqb_iret (x y : iret) : bool :=
   match x, y with
   | IUnit, IUnit => true
   | ITarget a, ITarget b => eqb_oaddr a b
+  | ILinked a b, ILinked a' b' => Bool.eqb a a' && Bool.eqb b b'
   | _, _ => false
   end.
 Definition eqb_iout (x y : res iret) : bool :=
@@ -56,6 +57,11 @@ Definition imon_step (it : iitem) : bool :=
   | IVerify _, Fail => match ii_log it with [] => true | _ => false end
   | IRecoveryTarget old, Ok (ITarget t) => eqb_oaddr t (irecovery_target w old) && match ii_log it with [] => true | _ => false end
   | IRecoveryTarget _, _ => false
+  (* the links to the registries are never lost, whatever time has passed *)
+  | ILinks, Ok (ILinked true true) => match ii_log it with [] => true | _ => false end
+  | ILinks, _ => false
+  | IAdvance _, Ok IUnit => match ii_log it with [] => true | _ => false end
+  | IAdvance _, _ => false
   end.
 
 Definition check_identity (t : itrace) : verdict :=
